@@ -716,7 +716,9 @@ Definition changes_to_undo (sm : summary) (t : lname) (td : table_delta) (c : ln
   if created && negb defunct then ([], [])
   else
     let befores rs := map (fun r => from_option fst 0 (m !! r)) rs in
-    let rows_before := filter (fun r => from_option (fun x => td_before x !! r) None td' ≠ Some false) full in
+    (* filter_out_new_rows looks the presence map up under the LATEST table name (delta_key, since b239974):
+       that is the table_delta `td` passed in, also for a removed table *)
+    let rows_before := filter (fun r => td_before td !! r ≠ Some false) full in
     let preserved := if defunct then []
                      else filter (fun r => from_option (fun x => td_after x !! r) None td' ≠ Some false) rows_before in
     let gone := filter (fun r => r ∉ preserved) rows_before in
